@@ -22,6 +22,11 @@ def directed():
          rd(b"web", [(b"tz_1:80", False), (b"tz_1:80", False)]), D(b"api", [g], [(b"tc:80", True), (b"tc:80", True)])],
         [D(b"web", [h], [(b"ta:80", True)]), rd(b"web", [(b"tb:80", True), (b"tc_1:80", False)]), rd(b"web", [(b"tb:80", True)]),
          D(b"api", [h], [(b"td:80", True)]), rd(b"web", [(b"te_1:80", False)])],
+        # a failing rollout deploy on a service whose rollout targets carry traffic (split in force): the rollout group must stay
+        # on them, `rollout set` must go on working, and the next snapshot must still list them
+        [D(b"web", [h], [(b"ta:80", True)]), rd(b"web", [(b"tb:80", True)]), {"op": "rollout_set", "name": b"web", "pct": 100, "allow": [b"alice"]},
+         rd(b"web", [(b"te_1:80", False)]), {"op": "rollout_set", "name": b"web", "pct": 50, "allow": [b"alice"]},
+         rd(b"web", [(b"tc:8080", True), (b"tg_1:80", False)]), D(b"api", [g], [(b"td:80", True)])],
     ]
 
 
